@@ -42,6 +42,9 @@ pub struct Extras {
     /// which of the foreign keys are written (bit k = k-th key of the list; absent in old replay files = all)
     #[serde(default = "all_keys")]
     pub foreign_mask: u16,
+    /// this many further blk files that no record names (pruned-away or pre-allocated files of a real directory)
+    #[serde(default)]
+    pub unreferenced_many: u16,
 }
 
 fn all_keys() -> u16 {
@@ -50,7 +53,7 @@ fn all_keys() -> u16 {
 
 impl Default for Extras {
     fn default() -> Extras {
-        Extras { rev_files: false, unreferenced_blk: false, blkfoo: false, dir_named_like_blk: false, foreign_keys: false, symlinks: false, foreign_mask: u16::MAX }
+        Extras { rev_files: false, unreferenced_blk: false, blkfoo: false, dir_named_like_blk: false, foreign_keys: false, symlinks: false, foreign_mask: u16::MAX, unreferenced_many: 0 }
     }
 }
 
@@ -75,6 +78,9 @@ pub struct LayoutSpec {
     /// overwritten later, records and foreign keys written and deleted again
     #[serde(default)]
     pub ldb_history: bool,
+    /// xor.dat as a symlink (see Plan::xor_link)
+    #[serde(default)]
+    pub xor_link: u8,
 }
 
 mod optkey {
@@ -98,7 +104,7 @@ fn _use(_: &dyn Fn(&Vec<u8>)) {
 
 impl LayoutSpec {
     pub fn canonical() -> LayoutSpec {
-        LayoutSpec { files: vec![FileSlot { number: 0, pad: 5 }], assign: vec![0], order: vec![0], gaps: vec![Gap::None], lead: vec![Gap::None], xor: None, extras: Extras::default(), ldb_small: false, ldb_reopens: 0, ldb_compact: false, ldb_history: false }
+        LayoutSpec { files: vec![FileSlot { number: 0, pad: 5 }], assign: vec![0], order: vec![0], gaps: vec![Gap::None], lead: vec![Gap::None], xor: None, extras: Extras::default(), ldb_small: false, ldb_reopens: 0, ldb_compact: false, ldb_history: false, xor_link: 0 }
     }
 
     /// distinct file numbers in slot order
@@ -183,6 +189,7 @@ impl LayoutSpec {
         plan.ldb_reopens = self.ldb_reopens;
         plan.ldb_compact = self.ldb_compact;
         plan.ldb_history = self.ldb_history;
+        plan.xor_link = self.xor_link;
         let used: std::collections::BTreeSet<u64> = numbers.iter().cloned().collect();
         let free = |start: u64| -> u64 {
             let mut n = start;
@@ -203,6 +210,12 @@ impl LayoutSpec {
         }
         if self.extras.unreferenced_blk {
             plan.extra_files.push((blk_name(free(7777), 5), b"not a block file at all".to_vec()));
+        }
+        for k in 0..self.extras.unreferenced_many as u64 {
+            let n = 30_000 + k;
+            if !used.contains(&n) {
+                plan.extra_files.push((blk_name(n, 5), vec![0x5au8; 64]));
+            }
         }
         if self.extras.blkfoo {
             plan.extra_files.push(("blkfoo.dat".into(), vec![1, 2, 3]));
@@ -355,8 +368,8 @@ pub fn xor_key() -> BS<Option<Vec<u8>>> {
 pub fn layout(tier: crate::gen::Tier, with_xor: bool, big_holes: bool) -> BS<LayoutSpec> {
     let nfiles = prop_oneof![3 => Just(1usize), 4 => 2usize..5, 2 => 5usize..20, 1 => 20usize..60];
     let key = if with_xor { xor_key() } else { Just(None).boxed() };
-    (nfiles, any::<u8>(), any::<u8>(), key, any::<[bool; 8]>(), (0u8..3, prop_oneof![1 => Just(u16::MAX), 3 => any::<u16>()], proptest::bool::weighted(0.4)))
-        .prop_flat_map(move |(nf, amode, omode, xor, flags, (reopens, foreign_mask, ldb_history))| {
+    (nfiles, any::<u8>(), any::<u8>(), key, any::<[bool; 8]>(), (0u8..3, prop_oneof![1 => Just(u16::MAX), 3 => any::<u16>()], proptest::bool::weighted(0.4), prop_oneof![4 => Just(0u8), 1 => Just(1u8), 1 => Just(2u8)]))
+        .prop_flat_map(move |(nf, amode, omode, xor, flags, (reopens, foreign_mask, ldb_history, xor_link))| {
             let assign: BS<Vec<u16>> = match amode % 4 {
                 0 => Just(vec![0u16]).boxed(),
                 1 => vec(any::<u16>(), 1..40).boxed(),
@@ -376,11 +389,12 @@ pub fn layout(tier: crate::gen::Tier, with_xor: bool, big_holes: bool) -> BS<Lay
                 gaps,
                 lead,
                 xor: xor.clone(),
-                extras: Extras { rev_files: flags[0], unreferenced_blk: flags[1], blkfoo: flags[2], dir_named_like_blk: flags[3], foreign_keys: flags[4], symlinks: flags[7], foreign_mask },
+                extras: Extras { rev_files: flags[0], unreferenced_blk: flags[1], blkfoo: flags[2], dir_named_like_blk: flags[3], foreign_keys: flags[4], symlinks: flags[7], foreign_mask, unreferenced_many: 0 },
                 ldb_small: flags[5],
                 ldb_reopens: reopens,
                 ldb_compact: flags[6],
                 ldb_history,
+                xor_link,
             })
         })
         .boxed()
